@@ -567,6 +567,9 @@ def stepToks (s : DState) (toks : List String) : DState × String :=
 
 def step (s : DState) (line : String) : DState × String :=
   match line.trimAscii.toString.splitOn " " with
+  -- `hmanysep`: hash_many with every input in its own guarded buffer: same contract as `hmany`
+  | "CK" :: "hmanysep" :: sym :: n :: blocks :: seed :: key :: ctr :: incr :: fl :: fs :: fe :: _ =>
+    stepToks s ["K", "hmany", sym, n, blocks, seed, key, ctr, incr, fl, fs, fe, "0", "0"]
   | "CK" :: rest => stepToks s ("K" :: rest)      -- C kernels: same contract as the Rust platform kernels
   | toks => stepToks s toks
 
